@@ -68,6 +68,7 @@ type Engine struct {
 	specOrder []*SpecFunc
 	axiomDecls []*AxiomDecl
 	eptrDone   bool
+	atDeclared map[string]bool
 	curElemPtrs bool
 	curCase     string
 	rawSMT [][2]string
